@@ -1,17 +1,16 @@
-\* U1b: life cycle, exhaustively: <= 3 uploads, <= 2 messages / topics / users, <= 2 GC runs.
+\* U1c: life cycle, exhaustively: <= 3 uploads, <= 2 messages / topics / users, <= 2 GC runs.
 CONSTANTS
   MaxUp = 3
   MaxMsg = 2
   Topics = {"t1", "t2"}
   Users = {"u1", "u2"}
   MaxGc = 2
-  MaxClock = 3
   Grace = 1
-  Methods = {"GET", "POST", "DELETE"}
+  Methods = {"GET", "POST"}
   Keys = {"valid", "missing"}
   Creds = {"token", "missing"}
   Places = {"header"}
-  Sizes = {"small", "over"}
+  Sizes = {"small"}
   Kinds = {"html"}
   Faults = {"none", "start", "finish"}
   Shapes = {"canon", "dot_out"}
@@ -23,6 +22,6 @@ CONSTANTS
   DEV_ServeUnfinished = FALSE
   DEV_FinishFailLeavesBytes = FALSE
 SPECIFICATION Spec
-INVARIANTS TypeOK DownloadExact DownloadServes UrlNamesOnlyCompletedUpload ListedAreLinked DiskMatchesRecords LinksWellFormed OwnerAuthenticated
-PROPERTIES GateBeforeEffect LinkedNeverCollected LinkLastsAsLongAsTarget UnlinkedCollectedAfterGrace NothingElseRemoved
+VIEW View
+INVARIANTS StateClauses ReqClauses LifeClauses
 CHECK_DEADLOCK FALSE
